@@ -26,6 +26,23 @@ ASSUMPTIONS = [
     "mid points are (a+b)/2 in binary64; centroid / point_on_surface are only required to lie inside the bounds (tolerance 1e-9*extent + 16 ulp: GEOS computes them as weighted averages)",
 ]
 
+def f23(spec, kind, message):
+    """Open-finding classifier F23: centroid / point_on_surface of a polygon outline that is not shapely-valid."""
+    if kind != "point_inside":
+        return False
+    from vf.oracles.shp import to_shp
+
+    g = spec["g"]
+    if g["type"] not in ("Polygon", "MultiPolygon"):
+        return False
+    try:
+        return not to_shp(g["type"], g["coordinates"]).is_valid
+    except Exception:
+        return True
+
+
+KNOWN = {"F23-centroid-of-invalid-polygon": f23}
+
 SHAPELY_KIND = {
     "TimeStamp": "LineString",
     "TimeInterval": "Polygon",
@@ -106,7 +123,21 @@ def check(spec, ctx):
         ctx.fail(f"geometry_to_shapely({kind}) has kind {shp.geom_type}, expected {SHAPELY_KIND[kind]}", spec, shp.geom_type, SHAPELY_KIND[kind], kind="shapely_kind")
     exp_pts, as_set = expected_shapely_coords(kind, coords)
     got_pts = [list(map(float, p)) for p in shapely.get_coordinates(shp).tolist()]
-    if as_set:
+    if kind in ("Polygon", "MultiPolygon"):
+        # ring by ring, modulo the closing point(s) shapely appends (a ring needs >= 4 coordinates)
+        def norm(r):
+            r = [list(map(float, q)) for q in r]
+            while len(r) > 1 and r[-1] == r[0]:
+                r = r[:-1]
+            return r
+
+        polys = [shp] if kind == "Polygon" else list(shp.geoms)
+        want = [coords] if kind == "Polygon" else coords
+        got_rings = [[norm(pg.exterior.coords)] + [norm(i.coords) for i in pg.interiors] for pg in polys]
+        exp_rings = [[norm(r) for r in pg] for pg in want]
+        ok = got_rings == exp_rings
+        got_pts, exp_pts = got_rings, exp_rings
+    elif as_set:
         ok = {tuple(p) for p in got_pts} == {tuple(p) for p in exp_pts} and got_pts[0] == got_pts[-1]
     else:
         ok = got_pts == exp_pts
@@ -160,8 +191,8 @@ def check(spec, ctx):
         if len(p) != 2:
             ctx.fail(f"get_geometry_point({kind},{pos}) is not a pair", spec, p, None, kind="point_shape")
         if pos in ("centroid", "point_on_surface"):
-            tol_t = 1e-9 * (tr - tl) + 16 * math.ulp(max(abs(tr), 1e-300))
-            tol_f = 1e-9 * (fh - fl) + 16 * math.ulp(max(abs(fh), 1e-300))
+            tol_t = 1e-9 * (tr - tl) + 16 * math.ulp(max(abs(tr), 1e-300)) + 1e-12
+            tol_f = 1e-9 * (fh - fl) + 16 * math.ulp(max(abs(fh), 1e-300)) + 1e-12
             if not (tl - tol_t <= p[0] <= tr + tol_t and fl - tol_f <= p[1] <= fh + tol_f):
                 ctx.fail(f"get_geometry_point({kind},{pos}) = {p} lies outside the bounds {eb}", spec, p, eb, kind="point_inside")
             continue
@@ -175,6 +206,41 @@ def check(spec, ctx):
     # default position
     if tuple(map(float, geometry.get_geometry_point(g))) != (tl, fl):
         ctx.fail("get_geometry_point default position is not bottom-left", spec, None, (tl, fl), kind="point_value")
+
+    # objects derived from an already queried geometry (copy with new coordinates, deep copy, JSON round trip)
+    # must be measured by THEIR coordinates: no result may be carried over from the object they were derived from
+    from vf.oracles.shp import shift_spec_time
+    import copy as _copy
+
+    dt = spec.get("dt", 10.0)
+    shifted = shift_spec_time(kind, coords, dt)
+    try:
+        revalidated = data.geometry_validate({"type": kind, "coordinates": shifted}, mode="dict")
+    except ValueError:
+        ctx.label("shift_collapses_line_skipped")  # adding dt can merge two nearly equal times of a multi-line
+        return
+    derived = {
+        "model_copy(update)": g.model_copy(update={"coordinates": revalidated.coordinates}),
+        "model_copy(deep, update)": g.model_copy(update={"coordinates": revalidated.coordinates}, deep=True),
+        "revalidated": revalidated,
+    }
+    shifted = revalidated.coordinates
+    dc = _copy.deepcopy(g)
+    want_s = tuple(float(x) for x in ref_bounds(kind, shifted))
+    for how, h in derived.items():
+        gb = tuple(float(x) for x in geometry.compute_bounds(h))
+        if gb != want_s:
+            ctx.fail(f"{how} of a {kind} shifted by {dt} s: compute_bounds = {gb}, its coordinates give {want_s}", spec, gb, want_s, kind="stale_bounds")
+        pt = tuple(map(float, geometry.get_geometry_point(h, position="top-right")))
+        if pt != (want_s[2], want_s[3]):
+            ctx.fail(f"{how} of a {kind}: top-right = {pt}, its coordinates give {(want_s[2], want_s[3])}", spec, pt, (want_s[2], want_s[3]), kind="stale_bounds")
+        dur = [f.value for f in geometry.compute_geometric_features(h) if f.term.name == terms.duration.name]
+        if dur and float(dur[0]) != want_s[2] - want_s[0]:
+            ctx.fail(f"{how} of a {kind}: duration feature {dur[0]} != {want_s[2] - want_s[0]}", spec, dur[0], want_s[2] - want_s[0], kind="stale_bounds")
+    if tuple(float(x) for x in geometry.compute_bounds(dc)) != eb:
+        ctx.fail("deep copy reports different bounds", spec, None, eb, kind="stale_bounds")
+    if tuple(float(x) for x in geometry.compute_bounds(g)) != eb:
+        ctx.fail("bounds of the original changed after deriving copies", spec, None, eb, kind="stale_bounds")
 
 
 def check_bad_position(spec, ctx):
@@ -194,7 +260,7 @@ def check_bad_position(spec, ctx):
 
 @st.composite
 def case(draw):
-    return {"g": draw(geometry_spec())}
+    return {"g": draw(geometry_spec(invalid_polygons=True)), "dt": draw(st.sampled_from([0.5, 10.0, 1024.0]))}
 
 
 @st.composite
